@@ -38,7 +38,13 @@ func NewForwardedModifier() martian.RequestModifier {
 				req.Header.Set("X-Forwarded-Proto", req.URL.Scheme)
 			}
 			if v := req.Header.Get("X-Forwarded-Host"); v == "" {
-				req.Header.Set("X-Forwarded-Host", req.Host)
+				// A request without a Host header (HTTP/1.0, e.g. read from a
+				// CONNECT tunnel) is addressed by its URL.
+				host := req.Host
+				if host == "" {
+					host = req.URL.Host
+				}
+				req.Header.Set("X-Forwarded-Host", host)
 			}
 			if v := req.Header.Get("X-Forwarded-Url"); v == "" {
 				req.Header.Set("X-Forwarded-Url", req.URL.String())
